@@ -28,7 +28,7 @@ rc, o = run(["git", "apply", diff])
 assert rc == 0, "patch does not apply: " + o
 rc, o = run(["go", "build", "./internal/decode/", "./internal/encode/", "./internal/format/", "./internal/types/", "./internal/writer/", "./mpx/", "./rpc/", "."])
 builds = rc == 0
-rc, o = run(["go", "test", "-vet=off", "-count=1", "./internal/decode/...", "./internal/lang/parser/...", "./internal/writer/...", "./mpx/...", "./rpc/..."])
+rc, o = run(["go", "test", "-vet=off", "-count=1", "./internal/decode/...", "./internal/lang/...", "./internal/tests/...", "./internal/writer/...", "./mpx/...", "./rpc/..."])
 suite_ok = rc == 0
 suite_tail = o[-600:]
 shutil.copy(demo, os.path.join(wt, dest))
